@@ -9,7 +9,7 @@ Definition dec_l0 (x : sx) : l0hdr :=
        (map (fun p => (asN (nthx 0 p), asN (nthx 1 p))) (asL (nthx 5 x))).
 
 (** input  [ps; maxSyncWALBytes; dbpages; pos; last L0 (off size s1 s2 commit ((pg dig)...));
-            syncedToWALEnd; walPresent; wal; fdigPresent; fdig; lastSyncedWALOffset]
+            syncedToWALEnd; walPresent; wal; fdigPresent; fdig; reachedWALEnd (0/1)]
     output [0] no file (skip) | [1; off; size; s1; s2; commit; pgnos] | [2] error *)
 Definition db_sync_step (x : sx) : sx :=
   let ps := asN (nthx 0 x) in
